@@ -61,7 +61,7 @@ theorem patchOperators_ref (ops : OpTable) (tyOf : Node → String) (n : Node) :
 
 /-! ### the overload search -/
 
-theorem findOverload_none_iff (cs : List Cand) (tl tr : String) :
+theorem findOverload_none_iff (cs : List OpCand) (tl tr : String) :
     findOverload cs tl tr = none ↔ ∀ c ∈ cs, (c.l.fits tl && c.r.fits tr) = false := by
   induction cs with
   | nil => simp [findOverload]
@@ -72,7 +72,7 @@ theorem findOverload_none_iff (cs : List Cand) (tl tr : String) :
     · simp only [h, Bool.false_eq_true, ↓reduceIte, ih]
       simp
 
-theorem findOverload_first (pre post : List Cand) (c : Cand) (tl tr : String)
+theorem findOverload_first (pre post : List OpCand) (c : OpCand) (tl tr : String)
     (hpre : ∀ d ∈ pre, (d.l.fits tl && d.r.fits tr) = false) (hc : (c.l.fits tl && c.r.fits tr) = true) :
     findOverload (pre ++ c :: post) tl tr = some c.fn := by
   induction pre with
@@ -82,7 +82,7 @@ theorem findOverload_first (pre post : List Cand) (c : Cand) (tl tr : String)
     simp only [List.cons_append, findOverload, hd, Bool.false_eq_true, ↓reduceIte]
     exact ih (fun e he => hpre e (List.mem_cons_of_mem _ he))
 
-theorem findOverload_some (cs : List Cand) (tl tr fn : String) (h : findOverload cs tl tr = some fn) :
+theorem findOverload_some (cs : List OpCand) (tl tr fn : String) (h : findOverload cs tl tr = some fn) :
     ∃ c ∈ cs, c.fn = fn ∧ c.l.fits tl = true ∧ c.r.fits tr = true := by
   induction cs with
   | nil => simp [findOverload] at h
